@@ -33,6 +33,7 @@ import (
 //	NVH  NEW_VIEW whose embedded PREPREPARE hash differs from the proven/attached block (P4 variant)
 //	NC   the adversary's own PREPARE / COMMIT / PREPREPARE(view 0) / VIEW_CHANGE, genuinely signed over a NON-CANONICAL
 //	     encoding of the signed header (the canonical bytes followed by padding): every field reads the same
+//	NVT  NEW_VIEW whose embedded proposal is genuinely signed but declares another message type (COMMIT) in its header
 //	NVB  NEW_VIEW valid in every signed part whose attached (unsigned) block body is another block (P4 variant)
 //	OUT  outsider-signed PREPARE / COMMIT / VIEW_CHANGE                            (P7)
 //	XT   cross-type replay: an honest PREPARE header+signature wrapped as COMMIT    (P6)
@@ -78,7 +79,7 @@ func (a *Adv) soupDependent() bool {
 	if a.e.Cfg.Eager {
 		return true
 	}
-	for _, p := range []string{"XT", "VC", "VCT", "NV", "NVW", "NVH", "NVN", "NVM", "NVE", "NVB"} {
+	for _, p := range []string{"XT", "VC", "VCT", "NV", "NVW", "NVH", "NVN", "NVM", "NVE", "NVB", "NVT"} {
 		if a.on(p) {
 			return true
 		}
@@ -452,7 +453,7 @@ func (a *Adv) build(soup []Sent, t *LState) []int {
 		}
 	}
 	// ---- NEW_VIEW in views the adversary leads
-	if a.on("NV") || a.on("NVF") || a.on("NVW") || a.on("NVH") || a.on("NVN") || a.on("NVM") || a.on("NVE") || a.on("NVB") {
+	if a.on("NV") || a.on("NVF") || a.on("NVW") || a.on("NVH") || a.on("NVN") || a.on("NVM") || a.on("NVE") || a.on("NVB") || a.on("NVT") {
 		for v := uint64(1); v <= e.Cfg.MaxView; v++ {
 			if v < t.View {
 				continue
@@ -606,6 +607,26 @@ func (a *Adv) newViews(soup []Sent, t *LState, b primitives.MemberId, v uint64, 
 			if r.IsQuorum(ids) {
 				addRaw(mkNV(nvT{T: protocol.LEAN_HELIX_NEW_VIEW, I: kit.Instance, H: H, V: V, Votes: votes, S: me,
 					PP: brefT{protocol.LEAN_HELIX_PREPREPARE, kit.Instance, H, V, kit.HashOf(z)}, PPS: me}, z), "NVM")
+			}
+		}
+	}
+	if a.on("NVT") {
+		// proof-less votes of everybody known + own vote, a fresh block, every signature genuine; only the embedded
+		// proposal's header declares the type COMMIT instead of PREPREPARE (signed as it stands by this leader)
+		me := signerT{ID: b, Mode: "valid"}
+		votes := []voteT{{T: protocol.LEAN_HELIX_VIEW_CHANGE, I: kit.Instance, H: H, V: V, S: me}}
+		ids := map[string]bool{string(b): true}
+		for _, c := range pool {
+			if c.pv < 0 && !ids[c.id] {
+				ids[c.id] = true
+				votes = append(votes, voteT{T: protocol.LEAN_HELIX_VIEW_CHANGE, I: kit.Instance, H: H, V: V, S: signerT{ID: primitives.MemberId(c.id), Mode: "replay", Sig: c.vcm.Content().Sender().Signature()}})
+			}
+		}
+		if r.IsQuorum(ids) {
+			for _, tag := range e.Cfg.Alphabet {
+				x := a.blockFor(h, tag)
+				addRaw(mkNV(nvT{T: protocol.LEAN_HELIX_NEW_VIEW, I: kit.Instance, H: H, V: V, Votes: votes, S: me,
+					PP: brefT{protocol.LEAN_HELIX_COMMIT, kit.Instance, H, V, kit.HashOf(x)}, PPS: me}, x), "NVT")
 			}
 		}
 	}
